@@ -37,36 +37,68 @@ type modReq struct {
 	terms      int // number of ciphertexts summed in the result
 	depth      int // key switches on any path
 	msgLog2    float64
+	msgOverTot float64 // alternative to msgLog2: message size in bits above the worst-case noise (rlwe-level props)
 	scaleLog2  float64 // 0 for bgv
 	extraLog2  float64 // additional factor on the noise (plaintext modulus for bgv)
 	allowNoNTT bool
+	termsN     bool // terms = ring degree, depth = log2(ring degree) + 3 (sums over at most all slots), set once the degree is drawn
 }
 
-// genModuli draws Q (1..3 primes), P (0..2 primes of 61 bits) and the power-of-two basis so that the worst-case noise
-// of the requested computation stays at least 2^8 below Q at level 0.
-func genModuli(t *rapid.T, logN int, nthRoot uint64, xs, xe h.DistSpec, req modReq, used map[uint64]bool) (Q, P []uint64, bpw2 int) {
+// ksChoice is the drawn shape of the moduli and of the key decomposition, with the resulting worst-case noise.
+type ksChoice struct {
+	nQ, nP, bpw2 int
+	tot          float64 // log2 of the worst-case total noise of the requested computation (without req.extraLog2)
+}
+
+// worstKS is log2 of the worst-case key-switch noise over the prime sizes that can be drawn (Q primes <= 60 bits, P
+// primes of 61 bits) for the given shape.
+func worstKS(n, nQ, nP, bpw2 int, be, sl1 float64) float64 {
+	if nP > 0 {
+		beta := (nQ + nP - 1) / nP
+		return math.Log2(float64(beta)*float64(n)*float64(nP+1)*be + 2*(1+sl1))
+	}
+	d := (60 + bpw2 - 1) / bpw2
+	return math.Log2(float64(nQ*d) * float64(n) * math.Exp2(float64(bpw2)) * be)
+}
+
+// genKS draws the number of Q primes (1..3), of P primes (0..2) and the power-of-two basis used when there is no P.
+// When maxTot > 0 the drawn shape is adjusted (smaller basis, then one auxiliary prime, then fewer Q primes) until the
+// worst-case noise of the requested computation is at most 2^maxTot: the generator constructs parameters with enough
+// room instead of producing cases that cannot be judged.
+func genKS(t *rapid.T, logN int, xs, xe h.DistSpec, req modReq, maxTot float64) ksChoice {
 	n := 1 << logN
-	nQ := rapid.IntRange(1, 3).Draw(t, "nQ")
+	var c ksChoice
+	c.nQ = rapid.IntRange(1, 3).Draw(t, "nQ")
 	loP := 0
 	if req.needP {
 		loP = 1
 	}
-	nP := rapid.IntRange(loP, 2).Draw(t, "nP")
-	if nP == 0 {
-		bpw2 = rapid.IntRange(2, 8).Draw(t, "bpw2")
+	c.nP = rapid.IntRange(loP, 2).Draw(t, "nP")
+	if c.nP == 0 {
+		c.bpw2 = rapid.IntRange(2, 8).Draw(t, "bpw2")
 	}
 	be, sl1 := xe.AbsBound(), h.SecretL1(xs, n)
-	// worst case over the prime sizes that can be drawn (Q primes <= 60 bits, P primes of 61 bits)
-	var ks float64
-	if nP > 0 {
-		beta := (nQ + nP - 1) / nP
-		ks = math.Log2(float64(beta)*float64(n)*float64(nP+1)*be + 2*(1+sl1))
-	} else {
-		d := (60 + bpw2 - 1) / bpw2
-		ks = math.Log2(float64(nQ*d) * float64(n) * math.Exp2(float64(bpw2)) * be)
+	eval := func() { c.tot = totalNoiseLog2(req.terms, req.depth, worstKS(n, c.nQ, c.nP, c.bpw2, be, sl1), be) }
+	eval()
+	if maxTot > 0 {
+		for c.tot > maxTot && c.nP == 0 && c.bpw2 > 2 {
+			c.bpw2--
+			eval()
+		}
+		if c.tot > maxTot && c.nP == 0 {
+			c.nP, c.bpw2 = 1, 0
+			eval()
+		}
+		for c.tot > maxTot && c.nQ > 1 {
+			c.nQ--
+			eval()
+		}
 	}
-	tot := totalNoiseLog2(req.terms, req.depth, ks, be) + req.extraLog2
-	need := math.Max(tot+1+9, req.msgLog2+2)
+	return c
+}
+
+// genPrimes draws the primes for a shape: Q primes of at least `need` (+1) bits and at most 60 bits, P primes of 61 bits.
+func genPrimes(t *rapid.T, nthRoot uint64, c ksChoice, need float64, used map[uint64]bool) (Q, P []uint64) {
 	minBits := int(math.Ceil(need)) + 1 // a b-bit prime is only known to be >= 2^(b-1)
 	if mb := h.MinPrimeBits(nthRoot); minBits < mb {
 		minBits = mb
@@ -75,17 +107,34 @@ func genModuli(t *rapid.T, logN int, nthRoot uint64, xs, xe h.DistSpec, req modR
 		minBits = 20
 	}
 	if minBits > 60 {
-		minBits = 60
+		minBits = 60 // not reachable when the caller bounded the noise through genKS; run() re-checks and skips otherwise
 	}
-	Q = h.GenPrimes(t, h.GenSizes(t, nQ, minBits, 60, "q"), nthRoot, used, "q")
-	if nP > 0 {
-		sz := make([]int, nP)
+	Q = h.GenPrimes(t, h.GenSizes(t, c.nQ, minBits, 60, "q"), nthRoot, used, "q")
+	if c.nP > 0 {
+		sz := make([]int, c.nP)
 		for i := range sz {
 			sz[i] = 61
 		}
 		P = h.GenPrimes(t, sz, nthRoot, used, "p")
 	}
 	return
+}
+
+// genModuli draws Q, P and the power-of-two basis so that the worst-case noise of the requested computation (times
+// 2^extraLog2) stays at least 2^9 below Q at level 0, and a message of msgLog2 (or msgOverTot above the noise) bits fits.
+func genModuli(t *rapid.T, logN int, nthRoot uint64, xs, xe h.DistSpec, req modReq, used map[uint64]bool) (Q, P []uint64, bpw2 int) {
+	// every requirement must end below 59 bits so that a prime of at most 60 bits can satisfy it
+	maxTot := 59 - 10 - req.extraLog2
+	if req.msgOverTot > 0 && 59-2-req.msgOverTot < maxTot {
+		maxTot = 59 - 2 - req.msgOverTot
+	}
+	c := genKS(t, logN, xs, xe, req, maxTot)
+	need := math.Max(c.tot+req.extraLog2+1+9, req.msgLog2+2)
+	if req.msgOverTot > 0 {
+		need = math.Max(need, c.tot+req.msgOverTot+2)
+	}
+	Q, P = genPrimes(t, nthRoot, c, need, used)
+	return Q, P, c.bpw2
 }
 
 func genBGVSet(t *rapid.T, req modReq) BGVSet {
@@ -105,6 +154,9 @@ func genBGVSet(t *rapid.T, req modReq) BGVSet {
 	s.P.Xe = h.GenDist(t, false, n, "xe")
 	req.extraLog2 = math.Log2(float64(s.P.T))
 	req.msgLog2 = math.Log2(float64(s.P.T))
+	if req.termsN {
+		req.terms, req.depth = n, s.P.LogN+3
+	}
 	s.P.Q, s.P.P, s.Bpw2 = genModuli(t, s.P.LogN, uint64(2*n), s.P.Xs, s.P.Xe, req, used)
 	return s
 }
@@ -257,7 +309,10 @@ func runBGVRot(c BGVRotCase, rec *h.Rec) error {
 	p := ctx.params
 	cols := ctx.cols
 	if m := ctx.margin(c.Level, 1, 4); m < 6 {
-		return h.Failf("C11:harness:margin", "noise margin 2^%.1f too small (generator bug)", m)
+		// cannot be judged (noise bound too close to the modulus): counted as trivial, never reported as a violation
+		rec.Class("unjudged:noise-margin")
+		rec.Note("margin-log2", m)
+		return nil
 	}
 	vals := distinctVals(c.Seed, ctx.slots, c.Set.P.T)
 	ct, err := ctx.encrypt(vals, c.Level)
@@ -563,7 +618,7 @@ func genBGVSum(t *rapid.T) BGVSumCase {
 	// set is drawn for the worst case of the ring degree.
 	op := bgvSumOps[rapid.IntRange(0, len(bgvSumOps)-1).Draw(t, "op")]
 	// every operation built on PartialTracesSum hoists and needs an auxiliary modulus; InnerFunction does not
-	c.Set = genBGVSet(t, modReq{needP: op != "InnerFunction", terms: 1 << maxLogN(), depth: maxLogN() + 3})
+	c.Set = genBGVSet(t, modReq{needP: op != "InnerFunction", termsN: true})
 	c.Level = rapid.IntRange(0, len(c.Set.P.Q)-1).Draw(t, "level")
 	c.Seed = rapid.Uint64().Draw(t, "seed")
 	total := tSlots(c.Set.P.T, c.Set.P.LogN)
@@ -610,7 +665,10 @@ func runBGVSum(c BGVSumCase, rec *h.Rec) error {
 	a := c.Args
 	T := c.Set.P.T
 	if m := ctx.margin(c.Level, a.terms(), a.depth()); m < 6 {
-		return h.Failf("C11:harness:margin", "noise margin 2^%.1f too small (generator bug)", m)
+		// cannot be judged (noise bound too close to the modulus): counted as trivial, never reported as a violation
+		rec.Class("unjudged:noise-margin")
+		rec.Note("margin-log2", m)
+		return nil
 	}
 	rng := h.NewSplitMix(c.Seed)
 	vals := make([]uint64, total)
